@@ -121,7 +121,10 @@ QUICK_DEMOTE = {
     'C02': [r'^votes::ex_', r'^gates::.*_ex::'],
 }
 # ... and these thorough harnesses are cheap enough for the quick tier (longer checkpoint timelines: 8 entries)
-QUICK_PROMOTE = {'C13': [r'lookup_votes_8$', r'lookup_total_8$']}
+QUICK_PROMOTE = {'C13': [r'lookup_votes_8$', r'lookup_total_8$'],
+                 # rule selection with policies and the 2-context batch: ~7 min each, but they are what decides
+                 # "signers not named by the rule never count" and "once per context" (two seeded changes were missed without them)
+                 'C03': [r'select_own_default$', r'select_own_own_2pol$', r'check_auth_glue_2ctx$']}
 for _pid, _pats in QUICK_PROMOTE.items():
     if _pid in CHECKS:
         CHECKS[_pid]['kani'] = [dict(_s, tier='quick') if any(_re.search(_p, _s['harness']) for _p in _pats) else _s
